@@ -19,7 +19,7 @@ ASSUMPTIONS = ['both axes imply one propagation wavelength (isotropic dx*du, or 
 PLAN = {'quick': {'gen': 8}, 'thorough': {'gen': 16, 'tests': 1, 'docs': 1}}
 REQUIRED_BUCKETS = ['grid:even', 'grid:odd', 'pupil:even', 'pupil:odd', 'pupil-parity!=grid-parity', 'os=1', 'os=2', 'os=3',
                     'shape:none', 'shape:explicit', 'aniso', 'scratch:exact', 'scratch:larger', 'scratch:dirty',
-                    'scratch:too-small', 'shape:too-large', 'tilted', 'segmented', 'segmented:bbox-overlap', 'scratch:non-finite']
+                    'scratch:too-small', 'shape:too-large', 'tilted', 'dir:image->pupil', 'segmented', 'segmented:bbox-overlap', 'scratch:non-finite']
 REQUIRED_ANCHORS = ['anchor:_fft_shape', 'anchor:_fft2', 'anchor:_has_tilt', 'anchor:scratch_shape', 'probe:propagate_fft',
                     'probe:propagate_dft']
 REQUIRED_ORACLES = ['fft=dft', 'fft=model', 'scratch=transparent', 'scratch:exact-accepted', 'scratch:too-small-refused',
@@ -112,7 +112,13 @@ def workload(ctx, lentil):
             ctx.bucket('segmented')
             if len(segs) > 1 and gen.bboxes_overlap(segs):
                 ctx.bucket('segmented:bbox-overlap')
-        w = lentil.Wavefront(wl) * lentil.Pupil(amplitude=amp, opd=opd, pixelscale=dx, focal_length=z, **segkw)
+        back = i % 5 == 3
+        if back:
+            # the other direction: an image-plane wavefront taken (back) to a pupil - the same forward kernel for both propagators
+            ctx.bucket('dir:image->pupil')
+            w = lentil.Wavefront(wl, focal_length=z) * lentil.Image(amplitude=amp, opd=opd, pixelscale=dx, **segkw)
+        else:
+            w = lentil.Wavefront(wl) * lentil.Pupil(amplitude=amp, opd=opd, pixelscale=dx, focal_length=z, **segkw)
         kw = dict(oversample=os_)
         if shape is not None:
             kw['shape'] = shape
@@ -129,7 +135,7 @@ def workload(ctx, lentil):
         wl_exp = G[0] / os_ * dxs[0] * dus[0] / z
         ok_meta = (S == expS and abs(wl_rep - wl_exp) <= 1e-12 * wl_exp and of.focal_length == w.focal_length
                    and np.allclose(np.asarray(of.pixelscale, float), dus / os_, rtol=1e-15, atol=0)
-                   and str(of.ptype) == 'image')
+                   and str(of.ptype) == ('pupil' if back else 'image'))
         ctx.check(ok_meta, 'fft:meta', 'fft|meta',
                   'FFT result does not carry grid shape / reported wavelength / focal length / du/oversample / image type',
                   dict(desc, got={'shape': list(S), 'wl': wl_rep, 'wl_expected': wl_exp}))
